@@ -7,7 +7,7 @@
 (the comb layouts, `iter_comb` and the handler tables are read by translator/c11.py; the binary codec by c05.py)"""
 import ast
 
-from translator.extract import find_class, find_func, generator, lean_list, lean_str, parse, strip_docstring
+from translator.extract import all_type_args_forms, find_class, find_func, generator, lean_list, lean_str, parse, strip_docstring
 from translator.c11 import _norm_body
 
 IS_PACKABLE = ["if cls.prim in {LIST}:\n    return False\nelif cls.prim == 'lambda':\n    return True",
@@ -33,7 +33,7 @@ def gen(status):
             and all(isinstance(e, ast.Constant) and isinstance(e.value, str) for e in body[0].test.comparators[0].elts):
         names = [e.value for e in body[0].test.comparators[0].elts]
         text = [ast.unparse(s) for s in body]
-        if text == [IS_PACKABLE[0].replace('{LIST}', ast.unparse(body[0].test.comparators[0])), IS_PACKABLE[1]]:
+        if text[0] == IS_PACKABLE[0].replace('{LIST}', ast.unparse(body[0].test.comparators[0])) and text[1] in all_type_args_forms(mt, 'is_packable'):
             excl = names
     status['MichelsonType.is_packable shape'] = (excl is not None, f'excluded {excl}, lambda packable, else all args' if excl is not None else 'unrecognised: ' + ast.unparse(fn)[:300])
     out.append('/-- primitives that make a type unpackable (`lambda` is packable whatever its arguments; otherwise all arguments must be) -/')
